@@ -123,8 +123,11 @@ class Helper(object):
     def _eligible(self, decos):
         n = self.node
         a = n.args
-        if a.vararg or a.kwarg or a.kwonlyargs or a.defaults or a.kw_defaults:
+        if a.vararg or a.kwarg or a.kwonlyargs or a.kw_defaults:
             return False
+        if any(not isinstance(d, ast.Constant) for d in a.defaults):
+            return False
+        self.defaults = dict(zip(self.params[len(self.params) - len(a.defaults):], a.defaults)) if a.defaults else {}
         if any(d not in ('staticmethod', 'classmethod') for d in decos):
             return False
         self.is_gen = False
@@ -180,6 +183,12 @@ def _resolve(call, helpers, cls_name, class_bases):
         h = helpers.get((recv, f.attr))
         if h is not None:
             return h, recv
+        if f.attr.startswith('_') and not f.attr.startswith('__'):
+            # a new private method called on another object: resolved when exactly one class of the module defines it (the
+            # receiver then has to be an instance of that class, or the call would fail)
+            cands = [h for (c, n), h in helpers.items() if n == f.attr and c and h.kind == 'method']
+            if len(cands) == 1:
+                return cands[0], recv
     return None, None
 
 
@@ -312,13 +321,15 @@ def inline_helpers(tree, known_functions):
                 params = list(h.params)
                 args = list(call.args)
                 if h.kind in ('method', 'class'):
-                    if recv not in ('self', 'cls'):
+                    if recv not in ('self', 'cls') and h.kind != 'method':
                         i += 1
                         continue
                     args = [ast.Name(id=recv, ctx=ast.Load())] + args
                 amap = dict(zip(params, args))
                 for k in call.keywords:
                     amap[k.arg] = k.value
+                for p_, d_ in getattr(h, 'defaults', {}).items():
+                    amap.setdefault(p_, d_)
                 if set(amap) != set(params) or len(args) > len(params):
                     i += 1
                     continue
